@@ -213,4 +213,24 @@ theorem instOfBytes_layersBounded (t : Colr) (hb : Bytes t.d) : LayersBounded (i
   have h2 := be1_lt t.d hb (id + 1)
   omega
 
+/-- an edge of the paint graph on which `traverse_with_callbacks` does NOT call `decycler.enter`: from the
+paint at byte offset `p` to its child at `q` -/
+inductive UEdge (d : List Nat) : Nat → Nat → Prop
+  | glyph {p g q : Nat} : nodeOfBytes d p = some (.glyph g q) → UEdge d p q
+  | transform {p tag q : Nat} : nodeOfBytes d p = some (.transform tag q) → UEdge d p q
+  | src {p s m b : Nat} : nodeOfBytes d p = some (.composite s m b) → UEdge d p s
+  | backdrop {p s m b : Nat} : nodeOfBytes d p = some (.composite s m b) → UEdge d p b
+
+/-- a chain of `k` unguarded edges starting at offset `p` -/
+inductive UChain (d : List Nat) : Nat → Nat → Prop
+  | here (p : Nat) : UChain d p 0
+  | step {p q k : Nat} : UEdge d p q → UChain d q k → UChain d p (k + 1)
+
+theorem UEdge.forward {d : List Nat} {p q : Nat} (h : UEdge d p q) : p < q ∧ q < d.length := by
+  cases h with
+  | glyph h => exact nodeOfBytes_glyph h
+  | transform h => exact ⟨(nodeOfBytes_transform h).1, (nodeOfBytes_transform h).2.1⟩
+  | src h => exact (nodeOfBytes_composite h).1
+  | backdrop h => exact (nodeOfBytes_composite h).2.1
+
 end FontVerif.PaintBytes
